@@ -86,6 +86,13 @@ class StandardGeometry(BaseGeometry):
         # handle case when a = 0
         t[a == 0] = -c[a == 0] / b[a == 0]
 
+        # the surface is the sheet of the quadric through the vertex (the one
+        # described by sag()); hits on the other sheet are not intersections
+        z = rays.z + t * rays.N
+        with warnings.catch_warnings():
+            warnings.simplefilter('ignore')
+            t[(1 + self.k) * z / self.radius > 1] = np.nan
+
         return t
 
     def surface_normal(self, rays):
